@@ -65,6 +65,7 @@ type c10Step struct {
 	FailAt   int     `json:"fail_at,omitempty"` // k-th store call of this request fails (0: none)
 	Del      int     `json:"del,omitempty"`     // delete: index into the live list (mod len); <0: unknown id
 	Invalid  string  `json:"invalid,omitempty"` // empty-name | two-infos | both-kinds
+	NoAuto   bool    `json:"disable_auto_start,omitempty"`
 }
 
 type c10Seq struct {
@@ -127,6 +128,7 @@ func c10RandStep(rnd interface{ Intn(int) int }) c10Step {
 		if rnd.Intn(10) < 3 {
 			st.Op = "create"
 		}
+		st.NoAuto = rnd.Intn(6) == 0
 		if rnd.Intn(100) < 18 {
 			st.FailAt = 1 + rnd.Intn(6)
 		}
@@ -242,6 +244,9 @@ func c10Sequences(run *vf.Run) []*c10Seq {
 			add("U", []c10Step{{Op: "create", Target: ti, Spec: x}, {Op: "create", Target: ti, Spec: y, UserRole: true, FailAt: k}, {Op: "create", Target: ti, Spec: y, UserRole: true}})
 		}
 		add("U", []c10Step{{Op: "create", Target: ti, Spec: x, UserRole: true}, {Op: "create", Target: ti, Spec: y}, {Op: "restart"}, {Op: "create", Target: ti, Spec: z, UserRole: true}})
+		// a task that is not started automatically after a restart still owns its names and the user role
+		add("U", []c10Step{{Op: "create", Target: ti, Spec: x, UserRole: true, NoAuto: true}, {Op: "restart"}, {Op: "create", Target: ti, Spec: x}, {Op: "create", Target: ti, Spec: y, UserRole: true}, {Op: "create", Target: ti, Spec: c10Spec{DB: "*", Coll: "*"}}})
+		add("U", []c10Step{{Op: "create", Target: ti, Spec: y, NoAuto: true}, {Op: "create", Target: ti, Spec: x}, {Op: "restart"}, {Op: "create", Target: ti, Spec: y}, {Op: "restart"}, {Op: "delspec", Target: ti, Spec: y}, {Op: "create", Target: ti, Spec: y}})
 		add("U", []c10Step{{Op: "create", Target: ti, Spec: x}, {Op: "create", Target: ti, Spec: y, UserRole: true}, {Op: "restart"}, {Op: "create", Target: ti, Spec: z, UserRole: true}})
 		add("U", []c10Step{{Op: "create", Target: ti, Spec: x, UserRole: true}, {Op: "create", Target: 1 - ti, Spec: x, UserRole: true}, {Op: "create", Target: ti, Spec: y, UserRole: true}, {Op: "delspec", Target: 1 - ti, Spec: x}, {Op: "restart"}, {Op: "create", Target: 1 - ti, Spec: y, UserRole: true}})
 	}
